@@ -16,7 +16,20 @@ int main(int argc, char** argv) {
       if ((int)(idx % nparts) != part) continue;
       string name; uint64_t v = n;
       for (int i = 0; i < len; i++) { name += alpha[v % A]; v /= A; }
-      if (!Representable(name)) { ++excluded; continue; }
+      if (!Representable(name)) {
+        // names ending in 2N backslashes: only as a dependency followed by another one on the same line
+        if (RepresentableMidLine(name) && !InD11Class(name)) {
+          for (int enc = 0; enc < 2 && fail.empty(); enc++) for (int lay : {0, 1, 2, 3, 4, 7}) {
+            Case c; c.encoder = enc; c.layout = lay; c.targets = {"out.o"}; c.deps = {"a b.h", name, "tail.h"};
+            string r = Check(c); ++evals; ++nontriv;
+            if (!r.empty()) { fail = r; break; }
+            c.deps = {name, "x#y.h"};
+            r = Check(c); ++evals;
+            if (!r.empty()) { fail = r; break; }
+          }
+          continue;
+        }
+        ++excluded; continue; }
       bool d11 = InD11Class(name);
       if (d11) ++d11_names;
       for (int enc = 0; enc < 2 && fail.empty(); enc++) for (int lay = 0; lay < kLayouts && fail.empty(); lay++) {
